@@ -1,8 +1,8 @@
 """registry entry of C16 (Lean files carrying the obligations, correspondence script, labels)"""
 from reg._common import COMMON_ASSUME
 
-ENTRY = {'lean_files': ['Tables/C16.lean', 'Props/C16.lean', 'Props/C16Hull.lean'],
- 'lemma_files': ['Lemmas/Predicates.lean',
+ENTRY = {'lean_files': ['Tables/C16.lean', 'Props/C16.lean', 'Props/C16Hull.lean', 'Props/C16More.lean'],
+ 'lemma_files': ['Lemmas/HullCorrect.lean', 'Lemmas/HullConvex.lean', 'Lemmas/BoxLine.lean', 'Lemmas/ClipRange.lean', 'Lemmas/NormReal.lean', 'Lemmas/Predicates.lean',
                  'Lemmas/PredicatesHull.lean',
                  'Lemmas/Bridge.lean',
                  'Lemmas/Shift.lean',
@@ -27,29 +27,24 @@ ENTRY = {'lean_files': ['Tables/C16.lean', 'Props/C16.lean', 'Props/C16Hull.lean
          'E: decisions equal to the model and to the exact rational reference, every quotient the correctly rounded '
          'exact quotient; T (two or more roundings, irrational norms): tolerance 8-64 u, decisions compared only for a '
          'clear margin. non-trivial = non-empty input; distinct by hash of exact inputs',
- 'partial': ['vector_close and linearization_error are modelled through squares (vectorCloseSq takes eps^2, '
-             'linearizationErrorSq returns error^2); the equivalence with the norm formulation (exact square root, eps >= 0) '
-             'is stated in Model/Helpers.lean, not proved in Lean',
-             'np.unique (NumPy sort) is modelled by its result (lexicographically sorted distinct columns)',
+ 'partial': ['np.unique (NumPy sort) is modelled by its result (lexicographically sorted distinct columns; sort_unique_spec)',
              'IEEE special values: where the code divides 0/0 on finite input the model returns Err.badInput '
              '(parallel_lines_parameters with a degenerate first segment) or transcribes the documented outcome of the NaN '
              'comparisons (is_separating with a zero edge direction: Python True, Fortran False)',
-             'polygon_collide is exact unless all vertices of both polygons are collinear (two points, a point on the line of a '
-             'segment, collinear segments): there the separating-axis test over edge normals answers "collide" (safe side, counted '
-             'in the evidence notes); the library routes segment pairs to line_line_collide',
-             'sat_safe_py needs the hypothesis "no zero edge direction" (sat_py_zero_edge_unsound shows it cannot be dropped); '
-             'proved about the hull: hull_subset_py/f90 (vertices are input points), hull_variants_agree (repaired Fortran '
-             'sort_in_place + chain = Python np.unique + chain on EVERY input), historical hull_old_differs; that the common '
-             'result is the convex hull (contains every input point, strictly convex, counter-clockwise) is checked by the '
-             'oracle on the exhaustive lattice enumeration, not proved',
-             'clip_range containment and bbox_line_intersect exactness are checked by the oracle only; bbox_line_intersect is '
-             'NOT safe on boxes without interior (decided witnesses bbox_line_intersect_degenerate_box_miss, '
-             'bbox_line_intersect_segment_box_miss; finding bbox-line-intersect:degenerate-box:missed-hit); the pure-Python '
-             'polygon_collide is NOT safe on single-point polygons (polygon_collide_variants_differ, '
-             'convex_hull_collide_single_point_miss; finding py-polygon-collide:single-point-polygon:missed-hit)',
-             'Tables/C16: the Python default argument wiggle=0.5**44, the Python BoxIntersectionType values and the Fortran '
-             '0.125_dp literal of linearization_error are not extracted by harness/extract.py yet (harness/extract_c16.diff adds '
-             'them, with the theorems to append); they are compared at run time by the script'],
+             'polygon_collide is exact unless all vertices of both polygons are collinear: there the separating-axis test over '
+             'edge normals answers "collide" (safe side, counted in the evidence notes); the library routes segment pairs to '
+             'line_line_collide; sat_safe_py needs the hypothesis "no zero edge direction" (sat_py_zero_edge_unsound)',
+             'proved in full (Props/C16More, any ordered field, every input): the monotone-chain result IS the convex hull - '
+             'hull_convex_polygon (>= 3 vertices, no repeats, strict left turns, every input point on or left of every edge), '
+             'hull_is_convex_hull (Mathlib convexHull of the vertices = convexHull of the input), the collinear and < 3 point '
+             'cases, convex_hull_collide_safe_f90 / _py (answer False => the hulls of the control nets are disjoint; Python needs '
+             '>= 2 distinct points per net: finding py-polygon-collide:single-point-polygon:missed-hit); bbox_line_intersect exact on '
+             'boxes with interior, general characterisation on degenerate boxes (finding bbox-line-intersect:degenerate-box:missed-hit); '
+             'clip_range_contains_curve / clip_range_intersection (no intersection parameter is clipped away) with the exact error '
+             'branches; vector_close / linearization_error: the squared model = the norm formulation over the reals with Real.sqrt '
+             '(eps >= 0)',
+             'binary64 rounding inside the predicates ("on general data they err only on the safe side") is NOT proved; it is '
+             'checked by the graded-penetration families of the script (margins 2^-1 .. 2^-40)'],
  'trusted_base': ['modelled not verified: the routines of hazmat/helpers.py, hazmat/geometric_intersection.py (predicates), '
                   'hazmat/clipping.py, helpers.f90 and curve_intersection.f90 (predicates) named in Model/Helpers.lean; '
                   'the compiled convex_hull_collide is not exported and is exercised through its three exported pieces '
